@@ -195,7 +195,17 @@ SxgFetchFailures(ev) ==
         ELSE IF ev.certfetch = "served" THEN (IF ev.dump_exit = 0 /\ ev.valid /\ ev.fetched = 1 THEN {} ELSE {"dump-signedexchange -verify does not verify with the chain fetched from cert-url"})
         ELSE (IF ev.dump_exit # 0 /\ ~ev.valid THEN {} ELSE {"dump-signedexchange -verify reports a valid signature although cert-url serves no / another chain"}))
 
-Failures(ev) == CASE ev.kind = "urllist" -> UrlListFailures(ev) [] ev.kind = "ocspfetch" -> OcspFetchFailures(ev) [] ev.kind = "sxgview" -> SxgViewFailures(ev) [] ev.kind = "sxgfetch" -> SxgFetchFailures(ev)
+\* -manifestURL: in a b1 bundle the manifest section holds exactly that URL (and everything else is as without it);
+\* for b2, which has no such section, the tool fails instead of writing a bundle without it
+ManifestFailures(ev) ==
+  LET x == ExtractWith(ev.file, LAMBDA u : "ok") IN
+  IF ev.ver = "b2" THEN (IF ev.gen_exit # 0 THEN {} ELSE {"gen-bundle -manifestURL wrote a b2 bundle although the format has no manifest section"})
+  ELSE (IF ev.gen_exit = 0 /\ ev.dump_exit = 0 THEN {} ELSE {"gen-bundle -manifestURL / dump-bundle failed on a b1 bundle"})
+       \cup (IF ev.gen_exit # 0 THEN {}
+             ELSE IF WellFormedBundle(ev.file, ev.ver) /\ x.res # "err" /\ x.hasmanifest /\ x.manifest = ev.manifest /\ Len(x.exs) = ev.nfiles THEN {}
+             ELSE {"the b1 bundle does not carry the given manifest URL in its manifest section"})
+
+Failures(ev) == CASE ev.kind = "manifestcli" -> ManifestFailures(ev) [] ev.kind = "urllist" -> UrlListFailures(ev) [] ev.kind = "ocspfetch" -> OcspFetchFailures(ev) [] ev.kind = "sxgview" -> SxgViewFailures(ev) [] ev.kind = "sxgfetch" -> SxgFetchFailures(ev)
                   [] ev.kind = "dirbundle" -> DirFailures(ev) [] ev.kind = "ibcli" -> IbFailures(ev) [] ev.kind = "certcli" -> CertFailures(ev) [] ev.kind = "certpure" -> CertPureFailures(ev)
                   [] ev.kind = "sxgcli" -> SxgFailures(ev) [] ev.kind = "sxgflags" -> SxgFlagFailures(ev) [] ev.kind = "sxgdefaults" -> SxgDefaultFailures(ev) [] ev.kind = "harcli" -> HarFailures(ev)
 TraceInit == l = 1
